@@ -579,3 +579,49 @@ class ParseFilter(Contract):
 
 
 CONTRACTS += [ParseFilter()]
+
+
+class Recognisers(Contract):
+    """_is_json_like / _is_regex over an arbitrary non-empty token (z3 string): what the command-line parser takes for JSON and for a /regex/"""
+    target = f"{FP}._is_json_like"
+    properties = ("C07",)
+    prefer_cvc5 = True
+
+    def cases(self):
+        return [{"fn": "_is_json_like"}, {"fn": "_is_regex"}]
+
+    def setup(self, interp, case):
+        from pyvc.theory_str import SStr
+        self.target = f"{FP}.{case['fn']}"
+        q = z3.String("token")
+        interp.ex.assume(z3.Length(q) >= 1)
+        return [SStr(q)], {}, {"q": q}
+
+    def post(self, interp, case, pre, outcome):
+        ex, q = interp.ex, pre["q"]
+        name = f"{FP}.{case['fn']}"
+        if outcome[0] != "return":
+            ex.oblige(name + "#raises:nothing_for_a_non-empty_token", False, note=repr(outcome[1]))
+            return
+        r = outcome[1]
+        got = r.e if isinstance(r, SBool) else z3.BoolVal(bool(r))
+        first, last = z3.SubString(q, 0, 1), z3.SubString(q, z3.Length(q) - 1, 1)
+        if case["fn"] == "_is_json_like":
+            want = z3.Or(z3.And(first == z3.StringVal("{"), last == z3.StringVal("}")), z3.And(first == z3.StringVal("["), last == z3.StringVal("]")))
+            ex.oblige(name + "#ensures:a_token_is_JSON-like_iff_it_is_wrapped_in_one_kind_of_bracket_({...}_or_[...])", got == want)
+        else:
+            want = z3.And(first == z3.StringVal("/"), last == z3.StringVal("/"))
+            ex.oblige(name + "#ensures:a_token_is_a_regular_expression_iff_it_starts_and_ends_with_a_slash", got == want)
+
+
+def _mk_recogniser(fn):
+    class C(Recognisers):
+        target = f"{FP}.{fn}"
+
+        def cases(self):
+            return [{"fn": fn}]
+    C.__name__ = "Recogniser" + fn
+    return C()
+
+
+CONTRACTS += [_mk_recogniser("_is_json_like"), _mk_recogniser("_is_regex")]
